@@ -191,19 +191,32 @@ def analyse(rx, shape):
             if dj:
                 continue            # (1): no string of the form matches this alternative
             # candidate alternative A: align its items with the cells of the form
-            k, ok, groups, checks = 0, True, {}, []
+            k, ok, groups, checks, off = 0, True, {}, [], 0
             for xi, x in enumerate(alt):
                 if k >= len(cells):
                     ok = False
                     break
                 if x[0] == "lit":
-                    ok = cells[k][0] == "c" and cells[k][1] == x[1]
+                    ok = off == 0 and cells[k][0] == "c" and cells[k][1] == x[1]
                     k += 1
                 elif cells[k][0] == "p":
                     # a group facing a symbolic piece
                     p = cells[k][1]
                     fixed_piece = p[1] if p[0] == "f" else None
-                    if x[3] is not None and fixed_piece != x[3]:
+                    if x[3] is not None and fixed_piece is not None and \
+                            x[3] <= fixed_piece - off and (off > 0 or x[3] < fixed_piece):
+                        # a fixed-width group takes the next x[3] digits of a wider field
+                        groups[x[1]] = ("sub", cells[k][2], off, x[3])
+                        inc, _w = relang.included(z3.Loop(z3.Range("0", "9"), x[3], x[3]), x[2])
+                        ok = inc is True
+                        off += x[3]
+                        if off == fixed_piece:
+                            off = 0
+                            k += 1
+                        if not ok:
+                            break
+                        continue
+                    if off > 0 or (x[3] is not None and fixed_piece != x[3]):
                         ok = False
                     else:
                         groups[x[1]] = ("piece", cells[k][2])
@@ -224,7 +237,7 @@ def analyse(rx, shape):
                         k += w
                 if not ok:
                     break
-            ok = ok and k == len(cells)
+            ok = ok and k == len(cells) and off == 0
             if not ob("alt[%d].aligns-with-form" % ai, ok,
                       "first alternative that some string of the form matches is %s; "
                       "form %s (e.g. %r)" % (
@@ -315,3 +328,83 @@ class MatchModel:
             return [(st, _Method(g))]
         from .values import OutOfReach
         raise OutOfReach("attribute %s of a match" % name)
+
+
+# ---------------------------------------------------------------- substitution
+# rx.sub(repl, text) on a piecewise text.  BLINDNESS LEMMA: if the pattern is built
+# only from literal ASCII non-digit characters, positive character classes of such
+# characters, alternation, groups, repeats, anchors and look-arounds over the same
+# (no '.', no negated class / NOT_LITERAL, no category escape such as \d \w \s and
+# their negations), then no construct of the pattern can consume or be satisfied by
+# a character outside that alphabet; matching is therefore the same on any two
+# strings that agree on the alphabet characters and have out-of-alphabet characters
+# in the same places.  We replace every symbolic (digits-only) piece by private-use
+# placeholder characters, run the REAL rx.sub, and cut the result at the
+# placeholders.  The replacement must be a plain string (no group references).
+def _blind(tree):
+    for (op, av) in tree:
+        if op is C.LITERAL:
+            if av > 127 or chr(av).isdigit():
+                return False
+        elif op is C.IN:
+            for (o2, a2) in av:
+                if o2 is C.LITERAL:
+                    if a2 > 127 or chr(a2).isdigit():
+                        return False
+                elif o2 is C.RANGE:
+                    if a2[1] > 127 or any(chr(c).isdigit() for c in range(a2[0], a2[1] + 1)):
+                        return False
+                else:
+                    return False
+        elif op is C.SUBPATTERN:
+            if not _blind(av[3]):
+                return False
+        elif op is C.BRANCH:
+            if not all(_blind(b) for b in av[1]):
+                return False
+        elif op in (C.MAX_REPEAT, C.MIN_REPEAT):
+            if not _blind(av[2]):
+                return False
+        elif op is C.AT:
+            if av not in (C.AT_BEGINNING, C.AT_END, C.AT_BEGINNING_STRING, C.AT_END_STRING):
+                return False
+        elif op in (C.ASSERT, C.ASSERT_NOT):
+            if not _blind(av[1]):
+                return False
+        else:
+            return False
+    return True
+
+
+def text_sub(rx, repl, text):
+    """-> Text, or raises Unsupported"""
+    if not isinstance(repl, str) or "\\" in repl:
+        raise Unsupported("replacement with group references")
+    if not _blind(sre_parse.parse(rx.pattern, rx.flags)):
+        raise Unsupported("pattern %r is not digit-blind" % rx.pattern)
+    sym, s = [], ""
+    for p in text.pieces:
+        if isinstance(p, str):
+            if any(0xE000 <= ord(c) <= 0xF8FF for c in p):
+                raise Unsupported("private-use character in the text")
+            s += p
+        else:
+            if isinstance(p, DecStr):
+                raise Unsupported("substitution over a decimal piece")
+            s += chr(0xE000 + len(sym))
+            sym.append(p)
+    out = rx.sub(repl, s)
+    pieces, cur = [], ""
+    seen = []
+    for c in out:
+        if 0xE000 <= ord(c) <= 0xF8FF:
+            pieces.append(cur)
+            cur = ""
+            pieces.append(sym[ord(c) - 0xE000])
+            seen.append(ord(c) - 0xE000)
+        else:
+            cur += c
+    pieces.append(cur)
+    if seen != list(range(len(sym))):
+        raise Unsupported("substitution moved or dropped a symbolic piece")
+    return Text(pieces)
